@@ -454,7 +454,7 @@ func class(s string) string {
 }
 
 func run(c *kit.Ctx) {
-	n := c.N(12, 1600)
+	n := c.N(12, 128)
 	for i := 0; i < n; i++ {
 		id := fmt.Sprintf("t%d", i)
 		if !c.Mine(i, id) {
@@ -476,7 +476,7 @@ func tree(c *kit.Ctx, id string) {
 	}
 	c.Count("trees", 1)
 	c.Count("blocks_forged", len(g.all))
-	nsched := c.N(2, 8)
+	nsched := c.N(2, 4)
 	crashBudget := c.N(12, 100000)
 	sigs := map[string]bool{}
 	for s := 0; s < nsched; s++ {
